@@ -644,7 +644,20 @@ def rule_closed_sets(ctx):
     from .. import guardf as GF
 
     lefts = [(c_, ps_) for c_, ps_ in A.find(vt.block, "Expr::Call") if A.path_str(c_["func"]) == "Either::Left" and "elems" in A.render(c_)]
-    refused_both = re.search(r"Ordering::Less=>\{?return Err\(|Ordering::Less=>Err\(", t) is not None and re.search(r"Ordering::Greater=>\{?return Err\(|Ordering::Greater=>Err\(", t) is not None
+    # both mismatching arities are refused: the `Less` and the `Greater` arm of the arity comparison end in an error
+    # (whatever they compute for the message first)
+    def _arm_refuses(which):
+        for mt_, _ in A.find(vt.block, "Expr::Match"):
+            if ".cmp(" not in A.render(mt_["expr"]):
+                continue
+            for arm_ in mt_["arms"]:
+                if A.render_pat(arm_["pat"]).endswith("Ordering::" + which):
+                    b_ = A.render(arm_["body"])
+                    if "return Err(" in b_ or b_.lstrip("{").startswith("Err("):
+                        return True
+        return False
+
+    refused_both = _arm_refuses("Less") and _arm_refuses("Greater")
     bad = []
     for c_, ps_ in lefts:
         ft = GF.canon_text(RJ.site_formula(vt, c_, ps_))
